@@ -1049,16 +1049,22 @@ namespace detail {
                 if (j.template is<std::size_t>() && current.is_array())
                 {
                     std::size_t start = j.template as<std::size_t>();
-                    this->tail_select(context, root, 
-                                      path_generator_type::generate(context, last, start, options),
-                                      current.at(start), receiver, options);
+                    if (start < current.size()) // an index that is out of range selects nothing
+                    {
+                        this->tail_select(context, root, 
+                                          path_generator_type::generate(context, last, start, options),
+                                          current.at(start), receiver, options);
+                    }
                 }
                 else if (j.is_string() && current.is_object())
                 {
                     auto sv = j.as_string_view();
-                    this->tail_select(context, root, 
-                                      path_generator_type::generate(context, last, sv, options),
-                                      current.at(j.as_string_view()), receiver, options);
+                    if (current.contains(sv)) // a name that is not a member selects nothing
+                    {
+                        this->tail_select(context, root, 
+                                          path_generator_type::generate(context, last, sv, options),
+                                          current.at(sv), receiver, options);
+                    }
                 }
             }
         }
@@ -1079,11 +1085,18 @@ namespace detail {
                 if (j.template is<std::size_t>() && current.is_array())
                 {
                     std::size_t start = j.template as<std::size_t>();
-                    return this->evaluate_tail(context, root, last, current.at(start), options, ec);
+                    if (start < current.size())
+                    {
+                        return this->evaluate_tail(context, root, last, current.at(start), options, ec);
+                    }
                 }
-                if (j.is_string() && current.is_object())
+                else if (j.is_string() && current.is_object())
                 {
-                    return this->evaluate_tail(context, root, last, current.at(j.as_string_view()), options, ec);
+                    auto sv = j.as_string_view();
+                    if (current.contains(sv))
+                    {
+                        return this->evaluate_tail(context, root, last, current.at(sv), options, ec);
+                    }
                 }
                 return context.null_value();
             }
